@@ -23,7 +23,8 @@ ProjEvents(c) == LET ks == [i \in 1..Len(cs[c].events) |-> cs[c].events[i].k] IN
 Proj(c) == [st |-> cs[c].st, nextTx |-> cs[c].nextTx, nextRx |-> cs[c].nextRx, up |-> net[c].up,
             closing |-> net[c].closing, ev |-> ProjEvents(c), errs |-> cs[c].errs # <<>>,
             pend |-> [i \in 1..Len(cs[c].pend) |-> cs[c].pend[i][1]],
-            c2s |-> Len(net[c].c2s), s2c |-> Len(net[c].s2c)]
+            c2s |-> Len(net[c].c2s), s2c |-> Len(net[c].s2c),
+            status |-> StatusView(c)]
 
 TInit == Init /\ tid \in Tids /\ l = 1
 
